@@ -38,6 +38,36 @@ func (it *interpreter) runInit(p *ssa.Package) {
 
 var usedStubs = map[string]bool{}
 
+// syncMapState is the content of one sync.Map.
+type syncMapState struct{ keys, vals []iface }
+
+func (m *syncMapState) find(k iface) int {
+	for i := range m.keys {
+		switch r := m.keys[i].eq(nil, k).(type) {
+		case bool:
+			if r {
+				return i
+			}
+		default:
+			abortf("sync.Map with a symbolic key")
+		}
+	}
+	return -1
+}
+
+func (m *syncMapState) put(k, v iface) {
+	if i := m.find(k); i >= 0 {
+		m.vals[i] = v
+		return
+	}
+	m.keys, m.vals = append(m.keys, k), append(m.vals, v)
+}
+
+func (m *syncMapState) del(i int) {
+	m.keys = append(m.keys[:i:i], m.keys[i+1:]...)
+	m.vals = append(m.vals[:i:i], m.vals[i+1:]...)
+}
+
 func (it *interpreter) unstubbed(fr *frame, fn *ssa.Function, args []value) value {
 	name := fn.String()
 	if fn.Name() == "init" || strings.HasPrefix(fn.Name(), "init#") {
@@ -682,6 +712,63 @@ func init() {
 				return true
 			}
 			return false
+		},
+	})
+
+	// ---- sync.Map (Load / Store / LoadOrStore / LoadAndDelete / Delete; keys must be concrete)
+	smOp := func(fr *frame, args []value, what string) (*interpreter, *syncMapState) {
+		it := fr.i
+		p := ptrArg(fr, args[0], "sync.Map."+what)
+		it.schedPoint(fr, "sync.Map."+what)
+		if it.hb != nil {
+			it.hb.atomicOp(fr.g, p)
+		}
+		if it.syncMaps == nil {
+			it.syncMaps = map[*value]*syncMapState{}
+		}
+		m := it.syncMaps[p]
+		if m == nil {
+			m = &syncMapState{}
+			it.syncMaps[p] = m
+		}
+		return it, m
+	}
+	reg(map[string]externalFn{
+		"(*sync.Map).Load": func(fr *frame, args []value) value {
+			_, m := smOp(fr, args, "Load")
+			if i := m.find(args[1].(iface)); i >= 0 {
+				return tuple{m.vals[i], true}
+			}
+			return tuple{iface{}, false}
+		},
+		"(*sync.Map).Store": func(fr *frame, args []value) value {
+			_, m := smOp(fr, args, "Store")
+			m.put(args[1].(iface), args[2].(iface))
+			return nil
+		},
+		"(*sync.Map).LoadOrStore": func(fr *frame, args []value) value {
+			_, m := smOp(fr, args, "LoadOrStore")
+			if i := m.find(args[1].(iface)); i >= 0 {
+				return tuple{m.vals[i], true}
+			}
+			m.put(args[1].(iface), args[2].(iface))
+			return tuple{args[2], false}
+		},
+		"(*sync.Map).LoadAndDelete": func(fr *frame, args []value) value {
+			_, m := smOp(fr, args, "LoadAndDelete")
+			if i := m.find(args[1].(iface)); i >= 0 {
+				v := m.vals[i]
+				m.del(i)
+				return tuple{v, true}
+			}
+			return tuple{iface{}, false}
+		},
+		"(*sync.Map).Delete": func(fr *frame, args []value) value {
+			_, m := smOp(fr, args, "Delete")
+			if i := m.find(args[1].(iface)); i >= 0 {
+				m.del(i)
+			}
+			return nil
 		},
 	})
 
